@@ -27,10 +27,15 @@ class CoverRecorder:
         self.orig = sm.bipartite_vertex_cover
         rec = self
 
-        def wrapped(bigraph, algo="Hopcroft-Karp"):
-            res = rec.orig(bigraph, algo=algo)
-            rec.calls.append({"graph": [[int(v) for v in adj] for adj in bigraph], "algo": algo,
-                              "u": [bool(x) for x in res[0]], "v": [bool(x) for x in res[1]]})
+        def wrapped(*a, **k):
+            res = rec.orig(*a, **k)
+            try:          # the recorder never interferes; a call it cannot interpret is simply not recorded
+                bigraph = a[0] if a else k["bigraph"]
+                algo = k.get("algo", a[1] if len(a) > 1 else "Hopcroft-Karp")
+                rec.calls.append({"graph": [[int(v) for v in adj] for adj in bigraph], "algo": algo,
+                                  "u": [bool(x) for x in res[0]], "v": [bool(x) for x in res[1]]})
+            except Exception:
+                pass
             return res
         sm.bipartite_vertex_cover = wrapped
         return self
